@@ -99,7 +99,11 @@ def gen_case(rng, odd):
     n_free = rng.choice([0, 1, 2, 3, 4, 5, 6, 8, 10])
     free = [0]
     for _ in range(n_free):
-        free.append(new(rng.choices(["Leaf", "Two", "FnGen", "NoGen", "Node", "Pre", "Clamp"], [3, 2, 1, 2, 5, 2, 2])[0]))
+        free.append(new(rng.choices(["Leaf", "Two", "FnGen", "NoGen", "Node", "Pre", "Clamp"], [3, 2, 1, 2, 5, 4, 2])[0]))
+    if rng.random() < 0.35:
+        # several lightweight tasks, so that a configuration can have several different pre-tasks
+        for _ in range(rng.choice([2, 3])):
+            free.append(new("Pre"))
     pres = [i for i in free if nodes[i]["cls"] == "Pre"]
     targets = list(range(1, len(nodes))) or [0]
 
@@ -157,7 +161,10 @@ def gen_case(rng, odd):
             nd["fields"].insert(0, ["v", dict(t="int", v=rng.randrange(100))])
         later = [p for p in pres if p > i] or (pres if rng.random() < 0.05 else [])
         if later and rng.random() < (0.6 if i == 0 else 0.3):
-            nd["pre"] = [rng.choice(later) for _ in range(rng.choice([1, 1, 2]))]
+            k = rng.choice([1, 1, 2, 2, 3])
+            # several different pre-tasks when there are (their order must not matter), sometimes one twice
+            nd["pre"] = (rng.sample(later, min(k, len(later))) if rng.random() < 0.8
+                         else [rng.choice(later) for _ in range(k)])
     if pres and rng.random() < 0.4:
         nodes[0]["init"] = [rng.choice(pres) for _ in range(rng.choice([1, 2]))]
     # how each configuration is built: the parameters in the order `order`, the first `kw` of them as
@@ -172,10 +179,21 @@ def gen_case(rng, odd):
         nd["kw"] = rng.choice([0, len(names), rng.randrange(len(names) + 1)])
         nd["order2"] = list(reversed(nd["order"])) if rng.random() < 0.5 else rng.sample(names, len(names))
         nd["kw2"] = rng.choice([0, len(names), len(names), rng.randrange(len(names) + 1)])
+    # pre-tasks of one configuration have pairwise different identifiers (their v differs), and may be added
+    # in another order by the second submit (pre2)
+    for i, nd in enumerate(nodes):
+        if nd["cls"] == "Pre":
+            nd["fields"] = [kv for kv in nd["fields"] if kv[0] != "v"]
+            nd["fields"].insert(0, ["v", dict(t="int", v=100 + i)])
+            nd["order"] = [x for x in nd["order"] if x != "v"] + ["v"]
+            nd["order2"] = [x for x in nd["order2"] if x != "v"] + ["v"]
+        if len(nd["pre"]) > 1:
+            nd["pre2"] = list(reversed(nd["pre"])) if rng.random() < 0.7 else rng.sample(nd["pre"], len(nd["pre"]))
     # the second submit is a fresh copy of the same configuration: identical, or its dicts filled in the
-    # opposite order, or its parameters assigned in another order
+    # opposite order, or its parameters assigned in another order, or its pre-tasks added in another order
     m = rng.random()
-    return dict(root=0, producers=producers, nodes=nodes, reorder=m < 0.35, reassign=0.35 <= m < 0.7)
+    return dict(root=0, producers=producers, nodes=nodes, reorder=m < 0.25, reassign=0.25 <= m < 0.5,
+                repre=0.5 <= m < 0.75)
 
 
 def values_in(v):
@@ -285,8 +303,13 @@ def g_case(c):
     heap = glist(gnode(nd, vo) for nd, vo in zip(c["nodes"], a["vorder"]))
     v1 = gvalues(a["values"], a["sealed"])
     v2 = gvalues(a["values2"], a["sealed"])
+    if c.get("repre") and (not a["sorts_pretasks"] or a["pre_ties"]):
+        # pre-tasks in another order: on a tree that places them by list index the second copy legitimately
+        # differs (reported by the oracle); with equal identifiers the stable sort keeps the list order
+        v2 = v1
     ans = "(let v := %s in Build_answer %s v %s)" % (v1, glist(gbool(b) for b in a["sealed"]), "v" if v1 == v2 else v2)
-    return f"(Case {heap} gens decls {gnat(c['root'])} {ans})"
+    ids = glist((gstr(a["ids"][str(i)]) if str(i) in a["ids"] else "[]") for i in range(len(c["nodes"])))
+    return f"(Case {heap} gens decls {ids} {gnat(c['root'])} {ans})"
 
 
 def g_decls(decls):
@@ -314,7 +337,7 @@ def oracle(case):
     jd = first["jobdir"]
     why = "plain-keys" if all(is_plain(k) for k in case_keys(case)) else "nonplain-dict-key"
     small = dict(root=case["root"], producers=case["producers"], nodes=case["nodes"], reorder=bool(case.get("reorder")),
-                 reassign=bool(case.get("reassign")))
+                 reassign=bool(case.get("reassign")), repre=bool(case.get("repre")))
     new = [v for v in first["values"] if v["path"] is not None and not first["sealed"][v["node"]]]
     jparts = resolve(jd["parts"])
     seen = {}
@@ -335,6 +358,18 @@ def oracle(case):
                             data=dict(case=small, a=dict(node=seen[k][0], file=seen[k][1]),
                                       b=dict(node=who[0], file=who[1]), path=p)))
         seen.setdefault(k, who)
+    # private and distinct also means non-overlapping: no generated path is a folder on the way to another one
+    placed = [(resolve(v["path"]["parts"]), v) for v in new]
+    clash = None
+    for rp1, v1 in placed:
+        for rp2, v2 in placed:
+            if len(rp1) < len(rp2) and rp2[:len(rp1)] == rp1 and v1["path"]["root"] == v2["path"]["root"]:
+                clash = clash or (v1, v2)
+    if clash:
+        out.append(dict(key="C17:generated-path-is-folder-of-another",
+                        what="a generated path is a proper prefix of another generated path of the same task: "
+                             "a file where the folder of a sub-configuration is generated",
+                        data=dict(case=small, file=clash[0], below=clash[1])))
     r1 = [rel_to_job(v["path"], jd) for v in first["values"]]
     r2 = [rel_to_job(v["path"], second["jobdir"]) for v in second["values"]]
     if jd != second["jobdir"]:
@@ -350,6 +385,16 @@ def oracle(case):
                                  "filled in another order received other generated paths",
                             data=dict(case=small, first=[x for x, y in zip(r1, r2) if x != y],
                                       second=[y for x, y in zip(r1, r2) if x != y])))
+        elif case.get("repre") and any("pre2" in nd and nd["pre2"] != nd["pre"] for nd in case["nodes"]):
+            if pre_ties(case, first):
+                pass    # pre-tasks with equal identifiers are interchangeable: which one gets which index is free
+            else:
+                out.append(dict(key="C17:paths-depend-on-pretask-order",
+                                what="the same configuration (same identifier and job directory) with its pre-tasks "
+                                     "added in another order received other generated paths",
+                                data=dict(case=small,
+                                          first=[dict(v, path=x) for v, x, y in zip(first["values"], r1, r2) if x != y],
+                                          second=[dict(v, path=y) for v, x, y in zip(second["values"], r1, r2) if x != y])))
         elif case.get("reassign") and first.get("vorder") != second.get("vorder"):
             diff = [dict(node=i, first=a1, second=a2)
                     for i, (a1, a2) in enumerate(zip(first["vorder"], second["vorder"])) if a1 != a2]
@@ -367,6 +412,19 @@ def oracle(case):
     return out
 
 
+def pre_ties(case, first):
+    """two different pre-tasks of one configuration with the same raw identifier"""
+    ids = first.get("ids") or {}
+    for nd in case["nodes"]:
+        seen = {}
+        for j in nd["pre"]:
+            k = ids.get(str(j))
+            if k in seen and seen[k] != j:
+                return True
+            seen[k] = j
+    return False
+
+
 # ------------------------------------------------------------------ shrinking
 def reductions(case):
     """every case obtained by deleting one field / list element / dict entry / pre or init task
@@ -376,9 +434,12 @@ def reductions(case):
 
     def emit(mut):
         c2 = copy.deepcopy(dict(root=case["root"], producers=case["producers"], nodes=case["nodes"],
-                                reorder=bool(case.get("reorder")), reassign=bool(case.get("reassign"))))
+                                reorder=bool(case.get("reorder")), reassign=bool(case.get("reassign")),
+                                repre=bool(case.get("repre"))))
         mut(c2["nodes"])
         for nd in c2["nodes"]:
+            if "pre2" in nd and sorted(nd["pre2"]) != sorted(nd["pre"]):
+                nd["pre2"] = list(reversed(nd["pre"]))
             # plans name the parameters: a removed one is simply skipped by the driver
             if any(isinstance(x, int) for x in nd.get("order") or []):
                 nd.pop("order", None)
@@ -439,17 +500,18 @@ def run_cases(c, cases):
 
     def one(k):
         if not chunks[k]:
-            return dict(classes=None, decls=None, answers=[])
+            return dict(classes=None, decls=None, probes=None, answers=[])
         return run_impl("drive_c17.py", dict(workdir=str(wd / f"w{k}"), cases=chunks[k]), timeout=3000)
 
     with ThreadPoolExecutor(max_workers=nproc) as ex:
         res = list(ex.map(one, range(nproc)))
     classes = next(r["classes"] for r in res if r["classes"] is not None)
     decls = next(r["decls"] for r in res if r["decls"] is not None)
+    probes = next(r["probes"] for r in res if r["probes"] is not None)
     for k, r in enumerate(res):
         for case, a in zip(chunks[k], r["answers"]):
             case["raw"] = a
-    return classes, decls
+    return classes, decls, probes
 
 
 HEADER = ("From Coq Require Import ZArith NArith List Bool String.\n"
@@ -486,11 +548,29 @@ def run(c: Check):
         cases.extend(json.load(open(gold)))
     for i in range(n):
         cases.append(gen_case(c.rng, odd=(i % 4 == 3)))
-    classes, decls = run_cases(c, cases)
+    classes, decls, probes = run_cases(c, cases)
+    # which placement of pre-tasks does this tree have?  by rank of the identifier (fixes/C17-3.diff) or by list index
+    sorts = bool(probes["sorts_pretasks"])
+    c.count("tree:pre-tasks-placed-by-" + ("identifier-rank" if sorts else "list-index"))
+    c.extra["probes"] = probes
+    pd = probes["config_default"]
+    if "error" in pd:
+        c.obligations.append(dict(name="probe:config-valued-default", kind="tie", ok=False, detail=pd["error"]))
+    else:
+        n = len(pd["jobdir"]["parts"])
+        if not all(pd[k]["root"] == pd["jobdir"]["root"] and pd[k]["parts"][:n] == pd["jobdir"]["parts"]
+                   and len(pd[k]["parts"]) > n for k in ("a_p", "out")):
+            c.violation("C17:path-outside-job-directory:config-valued-default",
+                        "a task parameter whose default value is a configuration with a generated path: that path "
+                        "is generated under another job directory than the task's (the identifier changes while "
+                        "the task is sealed: the default test compares generated values)",
+                        dict(scenario="vpk_c17.probe.TDefault().submit(run_mode=DRY_RUN)", observed=pd))
     ok_tab = classes == GENS and decls == DECLS
     c.obligations.append(dict(name="tie:class-table", kind="tie", ok=ok_tab,
                               detail="" if ok_tab else f"declared generators / arguments differ: {classes} {decls}"))
     good = []
+    # an open known finding is reported on the first case that shows it, without minimisation
+    known_open = {k["key"] for k in c.known() if k.get("property") == "C17" and k.get("status") == "open"}
     for case in cases:
         a = case["raw"]
         c.evaluations += 1
@@ -502,7 +582,8 @@ def run(c: Check):
         case["classes"] = classes
         first, second = a["first"], a["second"]
         jd = first["jobdir"]
-        case["ans"] = dict(sealed=first["sealed"], vorder=first["vorder"],
+        case["ans"] = dict(sealed=first["sealed"], vorder=first["vorder"], ids=first.get("ids") or {},
+                           sorts_pretasks=sorts, pre_ties=pre_ties(case, first),
                            values=[dict(v, path=rel_to_job(v["path"], jd)) for v in first["values"]],
                            values2=[dict(v, path=rel_to_job(v["path"], second["jobdir"])) for v in second["values"]])
         good.append(case)
@@ -514,7 +595,12 @@ def run(c: Check):
         c.count("keys:" + ("plain" if all(is_plain(k) for k in case_keys(case)) else "nonplain"))
         c.count(f"producers={len(case['producers'])}")
         c.count("second-copy:" + ("dicts-reversed" if case.get("reorder") else
-                                  "parameters-assigned-in-another-order" if case.get("reassign") else "identical"))
+                                  "parameters-assigned-in-another-order" if case.get("reassign") else
+                                  "pre-tasks-added-in-another-order" if case.get("repre") else "identical"))
+        if case.get("repre") and any("pre2" in nd and nd["pre2"] != nd["pre"] for nd in case["nodes"]):
+            c.count("second-copy-pre-task-order-differs")
+        if pre_ties(case, first):
+            c.count("pre-tasks-with-equal-identifiers")
         for nd, vo in zip(case["nodes"], first["vorder"]):
             names = [k for k, _ in assigned_fields(nd, vo)]
             c.count("values-order:" + ("declaration" if names == [k for k, _ in nd["fields"]] else "other"))
@@ -535,7 +621,7 @@ def run(c: Check):
             c.nontrivial.add(json.dumps(case["nodes"], sort_keys=True))
         for v in oracle(case):
             if not any(x["key"] == v["key"] for x in c.violations):
-                if not c.replay:
+                if not c.replay and v["key"] not in known_open:
                     small = shrink(c, case, v["key"], classes)
                     v = next(x for x in oracle(small) if x["key"] == v["key"])
                 c.violation(v["key"], v["what"], v["data"])
@@ -543,7 +629,7 @@ def run(c: Check):
                       values=x["ans"]["values"]) for x in good[:2]]
     header = (HEADER + "Definition gens := " + g_gens(classes) + ".\n"
               + "Definition decls := " + g_decls(decls) + ".\n")
-    bad = c.corr_shards("corr", header, good, g_case, "check_case", shard=100)
+    bad = c.corr_shards("corr", header, good, g_case, "check_case" if sorts else "check_case_listorder", shard=100)
     if bad:
         # which behaviour does the tree have?  check_case_insertion: before fixes/C17-2.diff (dicts walked in
         # insertion order); check_case_prefix: before fixes/C17-1.diff too (dict keys used as they are)
@@ -564,7 +650,8 @@ def run(c: Check):
                                          values=good[i]["ans"]["values"]) for i in bad[:3]]
     if bad and not c.violations:
         c.extra["replay_cases"] = [dict(root=good[i]["root"], producers=good[i]["producers"], nodes=good[i]["nodes"],
-                                        reorder=bool(good[i].get("reorder")), reassign=bool(good[i].get("reassign")))
+                                        reorder=bool(good[i].get("reorder")), reassign=bool(good[i].get("reassign")),
+                                        repre=bool(good[i].get("repre")))
                                    for i in bad[:5]]
     c.level_assumptions = [
         "pathlib.PurePosixPath parsing/joining is modelled (GenPath.parse/pjoin), not verified; the job directory "
